@@ -25,6 +25,9 @@ def canon(x, depth=0):
         return ["bytes", x.hex()]
     if isinstance(x, np.ndarray):
         return ["ndarray", list(x.shape), x.dtype.kind, canon(x.tolist(), depth + 1)]
+    if isinstance(x, pd.DataFrame) and getattr(x, "_verif_writes", None) is not None:
+        base = pd.DataFrame(x)
+        return ["GuardedFrame", canon(base, depth + 1), ["writes-by-callee"] + list(x._verif_writes)]
     if isinstance(x, pd.DataFrame):
         return ["DataFrame", [str(c) for c in x.columns], canon(list(x.index), depth + 1), [canon(x[c].tolist(), depth + 1) for c in x.columns] if x.columns.is_unique else canon(x.values.tolist(), depth + 1)]
     if isinstance(x, pd.Series):
@@ -170,3 +173,60 @@ def scribble(x, depth=0):
                 scribble(v, depth + 1)
     except Exception:
         pass
+
+
+_GUARDED = []
+
+
+def guarded_frame(df):
+    """The caller's table as a DataFrame subclass that records every direct write to itself (column assignment / deletion /
+    insertion / pop, in-place methods, relabelling) - also writes that are undone before the call returns.  Objects derived from
+    it (groupby pieces, copies, selections) are plain DataFrames, so only writes to the caller's own object are recorded."""
+    import pandas as pd
+    if not _GUARDED:
+        class GuardedFrame(pd.DataFrame):
+            _metadata = ["_verif_writes"]
+
+            @property
+            def _constructor(self):
+                return pd.DataFrame
+
+            def _note(self, what):
+                w = getattr(self, "_verif_writes", None)
+                if w is not None:
+                    w.append(what)
+
+            def __setitem__(self, key, value):
+                self._note("setitem %r" % (key,))
+                return super().__setitem__(key, value)
+
+            def __delitem__(self, key):
+                self._note("delitem %r" % (key,))
+                return super().__delitem__(key)
+
+            def insert(self, *a, **k):
+                self._note("insert")
+                return super().insert(*a, **k)
+
+            def pop(self, *a, **k):
+                self._note("pop")
+                return super().pop(*a, **k)
+
+            def __setattr__(self, name, value):
+                if name in ("columns", "index"):
+                    self._note("set %s" % name)
+                return super().__setattr__(name, value)
+
+        def _inplace(name):
+            def method(self, *a, **k):
+                if k.get("inplace"):
+                    self._note("%s(inplace=True)" % name)
+                return getattr(pd.DataFrame, name)(self, *a, **k)
+            method.__name__ = name
+            return method
+        for nm in ("drop", "rename", "fillna", "reset_index", "set_index", "sort_values", "sort_index", "drop_duplicates", "dropna", "replace"):
+            setattr(GuardedFrame, nm, _inplace(nm))
+        _GUARDED.append(GuardedFrame)
+    g = _GUARDED[0](df)
+    object.__setattr__(g, "_verif_writes", [])
+    return g
